@@ -314,10 +314,29 @@ def _worker(case):
         _disarm()
         return {"obs": [], "viol": [f"timeout: implementation call did not return within {limit}s"],
                 "nontrivial": True, "key": "timeout", "stats": {"timeout": 1}, "timeout": True}
-    except Exception:
+    except Exception as e:
         _disarm()
-        return {"obs": [], "viol": [], "nontrivial": False, "key": "harness-error", "stats": {},
-                "harness_error": traceback.format_exc()[-1500:]}
+        # Where was it raised?  An exception that escapes from rdflib's own code (innermost frame under the
+        # repository) is the IMPLEMENTATION raising where the harness expected it to return — a difference
+        # between implementation and model, handled as a broken correspondence.  Anything else is a bug of
+        # the harness (exit 2 when frequent, never a violation).
+        tb, inner = e.__traceback__, ""
+        while tb is not None:
+            inner = tb.tb_frame.f_code.co_filename
+            tb = tb.tb_next
+        in_impl = os.path.realpath(inner).startswith(os.path.realpath(REPO) + os.sep)
+        r = {"obs": [], "viol": [], "nontrivial": False, "key": "harness-error", "stats": {},
+             "harness_error": traceback.format_exc()[-1500:]}
+        if in_impl:
+            r["impl_raised"] = f"{type(e).__name__} escaped from {os.path.relpath(os.path.realpath(inner), os.path.realpath(REPO))}: {str(e)[:120]}"
+            r["stats"] = {"impl_raised_unexpectedly": 1}
+        elif not isinstance(e, (OSError, MemoryError, RecursionError)):
+            # raised in the harness while it was reading the implementation's answer (wrong shape, wrong type,
+            # missing key…): on the unchanged tree this never happens, so the answer is one the harness and the
+            # model do not know — again a difference, not infrastructure trouble
+            r["impl_raised"] = f"harness could not interpret the implementation's answer ({type(e).__name__}: {str(e)[:120]})"
+            r["stats"] = {"impl_answer_uninterpretable": 1}
+        return r
 
 
 def run_impl_many(mod, cases, procs=None):
@@ -487,7 +506,8 @@ def run_property(mod, tier="quick", seed=0, replay=None):
             cases.append(mod.gen_case(case_rng(seed, prop, i), tier, i)); origin.append(f"gen:{i}")
 
     impl = run_impl_many(mod, cases)
-    harness_errors = [(origin[i], r["harness_error"]) for i, r in enumerate(impl) if r.get("harness_error")]
+    harness_errors = [(origin[i], r["harness_error"]) for i, r in enumerate(impl)
+                      if r.get("harness_error") and not r.get("impl_raised")]
     has_driver = bool(getattr(mod, "DRIVER", None))
     try:
         model_out = model_many(mod, cases) if has_driver else [None] * len(cases)
@@ -506,7 +526,10 @@ def run_property(mod, tier="quick", seed=0, replay=None):
             stats[k] = stats.get(k, 0) + v
         if r.get("nontrivial"):
             keys.add(r["key"])
-        d = compare(mod, c, r, model_out[i]) if not r.get("harness_error") else None
+        if r.get("impl_raised"):
+            d = "implementation raised where the harness and the model expect it to return: " + r["impl_raised"]
+        else:
+            d = compare(mod, c, r, model_out[i]) if not r.get("harness_error") else None
         if r["viol"]:
             failing.append((i, d))
         elif d is not None:
@@ -609,6 +632,8 @@ def run_property(mod, tier="quick", seed=0, replay=None):
                 if hasattr(mod, "shrink"):
                     def pred(cand):
                         rr = _worker_inline(mod, cand)
+                        if rr.get("impl_raised"):
+                            return True
                         if rr.get("harness_error"):
                             return False
                         mo = model_many(mod, [cand])[0]
@@ -625,6 +650,9 @@ def run_property(mod, tier="quick", seed=0, replay=None):
             if small is not None:
                 rr = _worker_inline(mod, small)
                 payload["impl_obs"] = rr["obs"][:50]
+                if rr.get("impl_raised"):
+                    payload["impl_raised"] = rr["impl_raised"]
+                    payload["traceback"] = rr.get("harness_error")
                 try:
                     payload["model_obs"] = model_many(mod, [small])[0][:50]
                     payload["divergence"] = compare(mod, small, rr, model_many(mod, [small])[0]) or payload["divergence"]
